@@ -264,6 +264,29 @@ class Session:
             except KeyError:
                 continue
             env.set(nm, self.havoc_value(interp, nm, cur))
+        # fields of local objects assigned / deleted-from in the body
+        fields = set()
+        for n in ast.walk(ast.Module(body=st.body, type_ignores=[])):
+            tgts = []
+            if isinstance(n, (ast.Assign,)):
+                tgts = n.targets
+            elif isinstance(n, (ast.AugAssign, ast.AnnAssign)):
+                tgts = [n.target]
+            elif isinstance(n, ast.Delete):
+                tgts = n.targets
+            for t in tgts:
+                while isinstance(t, ast.Subscript):
+                    t = t.value
+                if isinstance(t, ast.Attribute) and isinstance(t.value, ast.Name):
+                    fields.add((t.value.id, t.attr))
+        for on, attr in sorted(fields):
+            try:
+                obj = env.lookup(on)
+            except KeyError:
+                continue
+            if isinstance(obj, SymObj) and attr in obj.fields:
+                r = self.hook("havoc_field", interp, obj, attr, obj.fields[attr])
+                obj.fields[attr] = r if r is not NotImplemented else self.havoc_value(interp, f"{on}.{attr}", obj.fields[attr])
         self.hook("havoc_loop_heap", interp, st, env)
 
     def havoc_value(self, interp, nm, cur):
